@@ -271,12 +271,14 @@ def c04(tier, rep):
     # first / in the middle / last; depths cycling). Tuples above 12 elements have no Debug: those run with a handler only (it
     # receives every value and returns them as a Vec)
     wide = [tuple(1 + (b % 3) for b in range(10)), tuple(1 + ((b + 1) % 3) for b in range(12)), (1,) * 6 + (3,) + (2,) * 6,
-            (3,) + (2, 1) * 8, (1, 2) * 16 + (3,)]
+            (3,) + (2, 1) * 8, (1, 2) * 16 + (3,), (1,) * 64 + (2,)]
     if tier != "quick":
         wide += [tuple(1 + (b % 4) for b in range(24)), (2,) * 20 + (4,) + (1,) * 19, tuple(1 + ((5 * b) % 3) for b in range(64))]
     for ds in wide:
         n = len(ds)
         for mac in KINDS8:
+            if n > 40 and "async" in mac and tier == "quick":
+                continue  # (65 futures in one futures::join! take rustc a minute; thorough only)
             is_try = mac.startswith("try")
             modes = [("handler", dict(handler="map" if is_try else "then")),
                      ("letalt", dict(lets=[(b, b % 4 == 0) for b in range(0, n, 2)], handler=("and_then" if is_try else "then")))]
@@ -297,7 +299,7 @@ def c04(tier, rep):
     judge_family(rep, fr)
     rep.set("profiles", len(profs))
     rep.set("wide_profiles", [len(w) for w in wide])
-    rep.set("rule", "wide profiles (10, 12, 13, 17, 33 branches; thorough + 24, 40, 64; depths cycling, deepest branch first / in the middle / last) x 8 kinds x {handler receiving every value, let on alternate branches + handler; n <= 12 also plain / let on every branch}, try kinds additionally with one row per fault slot; mirrored recovery operands: 2-4 branches whose error-side operators (`!>`, `<=`, `<|`) carry BLOCK operands with branch-specific constants at the same action index of the same step, all 8 kinds, every subset of failing branches: position i must show branch i's own recovery value; %s x 8 macro kinds x {no handler, handler, let on every branch, let on alternate branches + handler}; branch i starts at 100*i+offset and adds 1 per step; result (and handler arguments) compared with the reference tuple; distinct = program, non-trivial = trace non-empty and 2 distinct outcomes over the offset rows" % bound)
+    rep.set("rule", "wide profiles (10, 12, 13, 17, 33, 65 branches — 65 in the sequential / thread-spawning kinds —; thorough + 24, 40, 64 and 65 in all kinds; depths cycling, deepest branch first / in the middle / last) x 8 kinds x {handler receiving every value, let on alternate branches + handler; n <= 12 also plain / let on every branch}, try kinds additionally with one row per fault slot; mirrored recovery operands: 2-4 branches whose error-side operators (`!>`, `<=`, `<|`) carry BLOCK operands with branch-specific constants at the same action index of the same step, all 8 kinds, every subset of failing branches: position i must show branch i's own recovery value; %s x 8 macro kinds x {no handler, handler, let on every branch, let on alternate branches + handler}; branch i starts at 100*i+offset and adds 1 per step; result (and handler arguments) compared with the reference tuple; distinct = program, non-trivial = trace non-empty and 2 distinct outcomes over the offset rows" % bound)
     sample_family(rep, progs, fr)
 
 
@@ -370,6 +372,11 @@ def tryfail_family(tier):
                 if len(ds) <= 3 and max(ds) > 1:
                     p = fp.build(mac, ds, flavour=fl, rich=True, wrap=True)
                     progs.append(fp.to_prog("%s/%s/%s/w" % (mac, fl, fp.pname(ds)), p, [[0]], sub=fp.fail_slots(ds)))
+                if fl == "Res" and "async" not in mac and 2 <= len(ds) <= 3 and max(ds) > 1 and (tier != "quick" or mac == "try_join" or len(ds) == 2):
+                    # block captures on the FIRST action (error-side callback) and the SECOND action (success-side callback) of every
+                    # branch-step, all of one signature: which branch fails must not depend on a neighbour's capture
+                    p = fp.build(mac, ds, flavour="Res", rich=True, errcap=True)
+                    progs.append(fp.to_prog("%s/Res/%s/errcap" % (mac, fp.pname(ds)), p, [[0]], sub=fp.fail_slots(ds)))
                 # every later step STARTS with a deferred error-side operator (`~!>`, `~<=`, `~<|`): a failure of the previous step is
                 # still noticed at the end of that step, before the error-side operator of the next one could touch it
                 if fl == "Res" and "async" not in mac and len(ds) <= 3 and max(ds) > 1 and (tier != "quick" or mac == "try_join" or len(ds) == 2):
@@ -688,7 +695,7 @@ def c15(tier, rep):
     else:
         runs = [(["c15", "std", 6, "join,try_join"], "21 symbols, length<=6, join/try_join"), (["c15", "full", 4, ALL8], "32 symbols, length<=4, 8 configs"), (["c15", "opts", 8, "join,try_join_async"], "4 options + x |> , then, length<=8")]
     runs.append((["c15", "wrap", 9 if tier == "quick" else 10, "join,try_join_async"], "wrapper balance: {x, |>, ~, >>>, <<<, comma}, length<=%d, join/try_join_async" % (9 if tier == "quick" else 10)))
-    runs.append((["c15", "sizes", ALL8], "1..40 branches / 1..40 steps (plain, captures, let names, handler) x 8 configs: valid expansion; 13 kinds of punctuation that cannot start an operand directly after every operand-taking operator (plain, ~, inside a wrapper) x 6 followers x 3 contexts x 8 configs: rejected"))
+    runs.append((["c15", "sizes", ALL8], "1..40, 63..66, 127..130, 255..257 branches / 1..40, 63..66, 127..129 steps (plain, captures, let names, handler) x 8 configs: valid expansion; 13 kinds of punctuation that cannot start an operand directly after every operand-taking operator (plain, ~, inside a wrapper) x 6 followers x 3 contexts x 8 configs: rejected"))
     runs.append((["c15", "lets", ALL8], "depth profiles n<=3,d<=3 x every assignment of {none, let, let mut, let ref, let r#keyword, let mut r#keyword} to the branches x handler x 8 configs"))
     runs.append((["c15", "mid", ALL8], "every operator (plain, ~, wrapper opener, <<<) in front of each separating comma of ^@ / ?^@ / typed <-> x 4 continuations x 8 configs: rejected"))
     classes = {}
@@ -836,10 +843,12 @@ def c11(tier, rep):
     from . import fam_names as fn
 
     dn = [q for q in fn.dense_programs(tier) if q.id.startswith(("dense/join/", "dense/try_join/", "resmix/", "dense/fold12"))]
+    from . import fam_captures as _fcap
+    dn += _fcap.wrapper_order_programs()
     fr5 = e2.run_family("c11dense", dn, extra_header=fn.NEST_HEADER)
     judge_family(rep, fr5)
     rep.set("operators_with_captured_operands", sorted(ops))
-    rep.set("rule", "(e) capture-dense grids with two-digit branch / action indices (2x11 .. 12x12, fold captures in 12 branches); (d) capture-rich depth profiles behind custom_joiner / lazy_branches(true) (the lazy sequential joiner runs the branch closures in reverse order, so a capture left inside its branch closure is seen after another branch's expressions); (a) every typed chain of length <= 2 whose expression operands (both operands of fold/try_fold) and initial value are ALL written as block captures, with ~ before none / the last / every operator, in 2- and 3-branch join! programs next to capture-dense Result branches (a distinct-constant capture on every action, Process and Err arms, mirrored (branch, action) positions); (b) depth profiles n<=3,d<=3 with a capture in every step of every branch in all 8 macro kinds; (c) captures inside wrappers (C02 family); oracle: value and trace equal the reference, which evaluates every capture once, after the previous step, before any branch expression of its step, in branch-then-position order")
+    rep.set("rule", "(f) block operands before a wrapper opens, inside it (one and two levels deep) and after it closes in one branch-step, each reading a counter the previous one bumped (4 shapes x instant / deferred x join!, try_join!, join_spawn!); (e) capture-dense grids with two-digit branch / action indices (2x11 .. 12x12, fold captures in 12 branches); (d) capture-rich depth profiles behind custom_joiner / lazy_branches(true) (the lazy sequential joiner runs the branch closures in reverse order, so a capture left inside its branch closure is seen after another branch's expressions); (a) every typed chain of length <= 2 whose expression operands (both operands of fold/try_fold) and initial value are ALL written as block captures, with ~ before none / the last / every operator, in 2- and 3-branch join! programs next to capture-dense Result branches (a distinct-constant capture on every action, Process and Err arms, mirrored (branch, action) positions); (b) depth profiles n<=3,d<=3 with a capture in every step of every branch in all 8 macro kinds; (c) captures inside wrappers (C02 family); oracle: value and trace equal the reference, which evaluates every capture once, after the previous step, before any branch expression of its step, in branch-then-position order")
     sample_family(rep, progs, fr)
 
 
@@ -868,6 +877,10 @@ def c12(tier, rep):
                     lets = [(b, (b + len(sub)) % 2 == 1) for b in sub]
                     p = fp.build(mac, ds, flavour=fl if mac.startswith("try") else None, lets=lets, readers=readers)
                     progs.append(fp.to_prog("%s/%s/%s/%s" % (mac, fl, fp.pname(ds), "".join(map(str, sub))), p, fp.offset_rows()))
+                    if fl == "Res" and len(sub) == n:
+                        # the initial values are written as block captures, directly followed by the first `~` operator
+                        p = fp.build(mac, ds, flavour="Res" if mac.startswith("try") else None, lets=lets, readers=readers, init_block=True)
+                        progs.append(fp.to_prog("%s/%s/%s/%s/initblock" % (mac, fl, fp.pname(ds), "".join(map(str, sub))), p, fp.offset_rows()))
                     if fl == "Res" and len(sub) == n and not ("async" in mac and "spawn" in mac):
                         # every later step is a deferred, explicitly closed wrapper whose inner operand is the reading capture
                         p = fp.build(mac, ds, flavour="Res" if mac.startswith("try") else None, lets=lets, readers=readers, wrap=True)
